@@ -139,6 +139,7 @@ func propC15(c c15Case) *Outcome {
 			for _, op := range c.Ops {
 				if op.Name != "" {
 					names[op.Name], names[op.Name+"x"], names[op.Name[:len(op.Name)-1]] = true, true, true
+					names["."+op.Name], names[op.Name+"."], names["/"+op.Name] = true, true, true
 				}
 			}
 			names[""] = true
